@@ -807,6 +807,22 @@ def _alignment(prog, rep):
                     pairs.append((n.target.id, c.args[0].elts[0], c.args[0].elts[1], env, n))
     if not pairs:
         rep.undecided("extract_bounds: no (lb, ub) pair per variable found")
+    # one pair per variable on EVERY path: an early `return []` / `return None` for a non-empty variable list hands the
+    # solver a bounds list that no longer matches the columns -- and scipy.optimize.linprog reads a missing bounds
+    # argument as (0, None) for every variable, not as "free"
+    for r_ in [x for x in walk_local(eb.node) if isinstance(x, ast.Return) and x.value is not None]:
+        v_ = r_.value
+        short = (isinstance(v_, (ast.List, ast.Tuple)) and not v_.elts) or (isinstance(v_, ast.Constant) and v_.value is None)
+        if not short:
+            continue
+        gs_ = dominating_guards(r_)
+        only_empty = gs_ and all(pol_ and src(t_).replace(" ", "") in (f"not{bparam}", f"len({bparam})==0") for t_, pol_ in gs_)
+        if only_empty:
+            continue
+        rep.ob("R05.5", "extract_bounds", False,
+               f"returns `{src(v_)}` at line {r_.lineno} although `{bparam}` may be non-empty" + (f" (when `{src(gs_[0][0])[:60]}`)" if gs_ else "") +
+               ": the bounds no longer have one entry per column, the LP solver is then called without bounds= and SciPy applies its default (0, None) to every variable -- free variables become non-negative",
+               loc=f"{eb.module.rel}:{r_.lineno}", detail="bounds-per-column", robust=True)
     for var, lo, hi, env, node in pairs:
         lo_v = env.get(lo.id, lo) if isinstance(lo, ast.Name) else lo
         hi_v = env.get(hi.id, hi) if isinstance(hi, ast.Name) else hi
